@@ -20,7 +20,7 @@ package ro
 //@   note the subscribe function of a shared observable; the connector is user code and may panic: no lock is left held and no subscriber stays counted then
 //@   type shareEnv
 //@   props C11 C13 C07
-//@   binds mu getOrCreateSubject refCount config source subject
+//@   binds mu getOrCreateSubject refCount hasBeenResetOnError hasBeenResetOnCompletion config source subject
 //@   calls AddUnsubscribable NewObserverWithContext NewSubscriber ShareWithConfig$1$3$1 StoreInt32 SubscribeWithContext
 //@   params subscriberCtx destination
 //@   scope config ctx currentSourceSubscription currentSubject destination err getOrCreateSubject hasBeenResetOnCompletion hasBeenResetOnError mu refCount reset source sourceSubscription sub subject subscriberCtx
